@@ -148,11 +148,11 @@ func init() {
 	p := &mon.Property{
 		ID: "C01",
 		Rule: "cases are (a, b, option set): seeded random document pairs (b = structured mutation of a three times in four) per option set, " +
-			"exhaustive array pairs over {1,2,3} wrapped at four depths, the FuzzJd corpus, void on either side, YAML-read inputs, pairs differing in several sibling members below a chain of 1-9 object keys; " +
+			"exhaustive array pairs over {1,2,3} wrapped at four depths, the FuzzJd corpus, void on either side, YAML-read inputs, pairs differing in several sibling members below a chain of 1-9 object keys, arrays whose elements / member values / keys are 1-140 KB strings differing in one middle byte, multiplicities around 256; " +
 			"every non-empty diff is applied twice, to a fresh parse of a and to the very operand it was computed from (whose arrays its hunks may still refer to); non-trivial = the diff has at least one hunk; distinct = distinct (a, b, options) texts",
 		Floors: map[string]int{
 			"diff_nonempty": 5000, "hunks>=2": 1000, "index_shift(>=2 hunks in one array)": 300, "hunk_nested_arrays": 300,
-			"hunk_set_multi": 100, "hunk_keyed_member": 100, "hunk_merge": 100, "hunk_multiset": 100, "void_involved": 20, "deep_chain_pairs": 5000, "yaml_read_pairs": 3000, "applied_to_the_operand_itself": 5000,
+			"hunk_set_multi": 100, "hunk_keyed_member": 100, "hunk_merge": 100, "hunk_multiset": 100, "void_involved": 20, "deep_chain_pairs": 5000, "yaml_read_pairs": 3000, "applied_to_the_operand_itself": 5000, "bulky_element_pairs": 1000,
 		},
 		Assumptions: []string{
 			"jd values are built with jd's own ReadJsonString / ReadYamlString from generated text",
@@ -194,6 +194,49 @@ func init() {
 				a, b := arrs[i/len(arrs)], arrs[i%len(arrs)]
 				c.Feature("exhaustive_pair")
 				c01Judge(c, ref.ToJSON(gen.Wrap(a, e.wrap)), ref.ToJSON(gen.Wrap(b, e.wrap)), e.o)
+			},
+		})
+	}
+	for _, o := range []OptSet{OptNone, OptSetO, OptMset, OptMerge} {
+		o := o
+		p.Strata = append(p.Strata, mon.Stratum{
+			Name: "bulky-elements/" + o.Name,
+			N:    qt(400, 20000),
+			Run: func(c *mon.Ctx, i int) {
+				// strings of 1-140 KB that differ in one middle byte, as array elements, as member
+				// values and as keys of objects inside arrays; multiplicities around 256
+				r := c.R
+				n := []int{1100, 5000, 70000, 140000}[i%4]
+				s1, s2 := midDiffPair(n)
+				alpha := []any{s1, s2, "x", 1.0, []any{s1}, []any{s2}, map[string]any{"blob": s1}, map[string]any{"blob": s2}, map[string]any{s1: 1.0}, map[string]any{s2: 1.0}}
+				mk := func() []any {
+					var l []any
+					for k := r.Range(1, 5); k > 0; k-- {
+						l = append(l, gen.Pick(r, alpha))
+					}
+					return l
+				}
+				a := mk()
+				b := append([]any{}, a...)
+				for e := r.Range(1, 2); e > 0; e-- {
+					j := r.Intn(len(b))
+					b[j] = gen.Pick(r, alpha)
+				}
+				if r.Chance(0.3) {
+					b = append(b, gen.Pick(r, alpha))
+				}
+				if i%5 == 0 {
+					hi := []int{255, 256, 257}[(i/5)%3]
+					for k := 0; k < hi; k++ {
+						a = append(a, "x")
+					}
+					for k := r.Range(0, hi+2); k > 0; k-- {
+						b = append(b, "x")
+					}
+				}
+				c.Feature("bulky_element_pairs")
+				w := i % 3
+				c01Judge(c, ref.ToJSON(gen.Wrap(a, w)), ref.ToJSON(gen.Wrap(b, w)), o)
 			},
 		})
 	}
